@@ -71,11 +71,16 @@ func runListener(c *listenerCase) (bool, error) {
 			go func(conn net.Conn) {
 				defer served.Done()
 				var pan interface{}
+				var herr error
 				func() {
 					defer func() { pan = recover() }()
-					conn.SetDeadline(time.Now().Add(5 * time.Second))
-					conn.(*tls.Conn).Handshake() // reads the hello through the recording connection
+					conn.SetDeadline(time.Now().Add(10 * time.Second))
+					herr = conn.(*tls.Conn).Handshake() // reads the hello through the recording connection
 				}()
+				if ne, ok := herr.(net.Error); ok && ne.Timeout() && pan == nil {
+					conn.Close() // the hello did not arrive in time (a starved machine): nothing to judge
+					return
+				}
 				addr := conn.RemoteAddr().String()
 				// the client registers what it is going to send before it sends it
 				mu.Lock()
